@@ -275,6 +275,13 @@ func oracleC09(w *World, rec *BlockRecord, txs []*TxInfo) {
 	}
 	// params may be changed by governance inside the block: then the step is not comparable
 	paramsChanged := !pb.MinGasPrice.Equal(pa.MinGasPrice) || w.paramMsgInBlock(txs)
+	for _, e := range rec.Res.Events {
+		if e.Type == "active_proposal" {
+			// a governance proposal was executed in this block's end blocker (before the fee market's): the step is not comparable
+			paramsChanged = true
+			r.Probe("governance_proposal_executed_in_block", true)
+		}
+	}
 	if maxGas > 1 && !paramsChanged { // a gas target of zero (max gas 0 or 1) leaves the EIP-1559 step undefined: only "never fails" and the bounds apply
 		// base fee at end-blocker entry (a params message in the block could have changed it)
 		pe := feeParamsOf(o.BeforeEnd)
